@@ -1922,6 +1922,243 @@ Qed.
 
 End QE.
 
+(* ================================================================== the two length limits *)
+(* [0-] and [0+] carry their own tis_set["maxlength"]: e_maxlen e0 and e_maxlen e1 are independent. *)
+
+Lemma is_acc_false s : is_acc s = false -> s <> ACC.
+Proof. destruct s; cbn; congruence. Qed.
+
+Lemma nth_error_In_firstn {A} (s : list A) : forall j m x, nth_error s j = Some x -> (j < m)%nat -> In x (firstn m s).
+Proof.
+  induction s as [|y s IH]; intros [|j] [|m] x H Hm; cbn in *; try discriminate; try lia.
+  - left. congruence.
+  - right. apply (IH j); [exact H|lia].
+Qed.
+
+Section Limits.
+Variable dumpf : dlabel -> Z -> Z.
+
+(* the variant definitions of SwapM.v are the code's functions with one place made a parameter *)
+Lemma retis_path1_is_seg e0 e1 : retis_path1 dumpf e0 e1 = retis_path1_seg dumpf (e_maxlen e1 - 1) e0 e1.
+Proof. reflexivity. Qed.
+Lemma retis_swap_zero_is_with : retis_swap_zero dumpf = retis_swap_zero_with dumpf (retis_path1 dumpf).
+Proof. reflexivity. Qed.
+
+(* a run that is not stopped by an interface within its first m frames uses at least m frames
+   of its container, if the container has that many *)
+Lemma engine_call_uses who M t streams init rv l r p' rest c m :
+  engine_call who (empty_path M t) streams init rv l r = Ok (p', rest, c) ->
+  (m <= M)%nat ->
+  (forall s0 tl, streams = s0 :: tl -> forall f, In f (firstn m s0) -> crossedb l r f = false) ->
+  exists s0 k, streams = s0 :: rest /\ pts p' = firstn k s0 /\ (m <= k <= M)%nat /\ (1 <= k <= length s0)%nat /\
+               c = mkCall who init rv l r M k.
+Proof.
+  intros E HmM Hno. apply engine_call_inv in E.
+  destruct E as (s0 & k & -> & Ep & _ & _ & Ek & Ekl & _ & Estop & ->).
+  exists s0, k. repeat split; try assumption; try lia.
+  destruct (Nat.lt_ge_cases k m) as [Hlt|]; [|assumption]. exfalso.
+  destruct (Estop ltac:(lia)) as (_ & _ & lastf & Hn & Hc).
+  rewrite (Hno s0 rest eq_refl lastf) in Hc; [discriminate|].
+  apply (nth_error_In_firstn s0 (k - 1)); [exact Hn|lia].
+Qed.
+
+(* step 1: the status is BTX exactly when the new [0-] path fills its own limit ... *)
+Lemma retis_path0_status e0 e1 allowed old1 streams path0 st0 streams1 calls :
+  retis_path0 dumpf e0 e1 allowed old1 streams = Ok (path0, st0, streams1, calls) ->
+  (st0 = BTX <-> plen path0 = e_maxlen e0) /\ (st0 = ACC -> (3 <= plen path0)%nat) /\
+  (st0 = BTX \/ st0 = BTS \/ st0 = ZML \/ st0 = ACC).
+Proof.
+  unfold retis_path0. destruct (first_frame old1) as [f10|]; [|discriminate].
+  match goal with |- context [if allowed then ?a else ?b] => destruct (if allowed then a else b) as [[[ptmp str1] cs]|] end; [|discriminate].
+  destruct (second_frame old1) as [f11|]; [|discriminate].
+  intros H. inversion H; subst; clear H.
+  match goal with |- context [(plen ?P =? _)%nat] => set (P0 := P) end.
+  destruct (Nat.eqb_spec (plen P0) (e_maxlen e0)) as [He|Hne].
+  { repeat split; auto; try discriminate. }
+  destruct (Nat.ltb_spec (plen P0) 3) as [Hlt|Hge].
+  { repeat split; auto; try discriminate; try (intros; exfalso; auto; fail). }
+  destruct (negb (e_scL e0) && has_L_start_end P0 e0).
+  { repeat split; auto; try discriminate; try (intros; exfalso; auto; fail). }
+  repeat split; auto; try discriminate; try (intros; exfalso; auto; fail).
+Qed.
+
+(* ... which is what happens when the backward run is not stopped by an interface within the first
+   maxlength([0-]) - 1 frames, provided the container (sized maxlength([0+]) - 1 in the code) is not
+   the smaller one *)
+Lemma retis_path0_too_long e0 e1 old1 s0 rest path0 st0 streams1 calls :
+  retis_path0 dumpf e0 e1 true old1 (s0 :: rest) = Ok (path0, st0, streams1, calls) ->
+  (e_maxlen e0 <= e_maxlen e1)%nat ->
+  (forall f, In f (firstn (e_maxlen e0 - 1) s0) -> crossedb (e_i0 e0) (e_i2 e0) f = false) ->
+  plen path0 = e_maxlen e0 /\ streams1 = rest.
+Proof.
+  unfold retis_path0. destruct (first_frame old1) as [f10|]; [|discriminate].
+  destruct (engine_call _ _ (s0 :: rest) _ true _ _) as [[[ptmp str1] c]|] eqn:E; [|discriminate].
+  destruct (second_frame old1) as [f11|]; [|discriminate].
+  intros H Hml Hno.
+  apply (engine_call_uses _ _ _ _ _ _ _ _ _ _ _ (e_maxlen e0 - 1)%nat) in E; [|lia|].
+  2:{ intros s0' tl' [= <- <-]. exact Hno. }
+  destruct E as (s0' & k & [= <- <-] & Ep & Ek & [_ Ekl] & ->).
+  set (P := fst (append_all (empty_path (e_maxlen e0) 0) (rev (pts ptmp)))) in *.
+  assert (HP : pts P = firstn (e_maxlen e0) (rev (firstn k s0))) by (unfold P; rewrite append_all_from_empty, Ep; reflexivity).
+  assert (HPm : maxlen P = e_maxlen e0).
+  { unfold P. pose proof (append_all_spec (empty_path (e_maxlen e0) 0) (rev (pts ptmp))) as (_ & A & _). exact A. }
+  pose proof (append_spec P (dump dumpf DSecond f11)) as (A1 & _ & _).
+  assert (HlenP : plen P = Nat.min (e_maxlen e0) k).
+  { unfold plen. rewrite HP, firstn_length, firstn_rev_length by exact Ekl. reflexivity. }
+  inversion H; subst path0 streams1; clear H.
+  split; [|reflexivity].
+  unfold plen at 1. rewrite A1. fold (plen P). rewrite HPm, HlenP.
+  destruct (Nat.ltb_spec (Nat.min (e_maxlen e0) k) (e_maxlen e0)).
+  - rewrite app_length. fold (plen P). rewrite HlenP. cbn [length]. lia.
+  - fold (plen P). rewrite HlenP. lia.
+Qed.
+
+(* step 2: the status is FTX exactly when the new [0+] path reaches its own limit ... *)
+Lemma retis_path1_status e0 e1 allowed old0 streams path1 st1 streams1 calls :
+  retis_path1 dumpf e0 e1 allowed old0 streams = Ok (path1, st1, streams1, calls) ->
+  (st1 = FTX <-> (e_maxlen e1 <= plen path1)%nat) /\ (st1 = ACC -> (3 <= plen path1)%nat) /\
+  (st1 = FTX \/ st1 = FTS \/ st1 = ACC).
+Proof.
+  unfold retis_path1. destruct (last_frame old0) as [f0l|]; [|discriminate].
+  match goal with |- context [if allowed then ?a else ?b] => destruct (if allowed then a else b) as [[[p1 str1] cs]|] end; [|discriminate].
+  intros H. inversion H; subst; clear H.
+  destruct (Nat.leb_spec (e_maxlen e1) (plen path1)) as [Hle|Hlt].
+  { repeat split; auto; try discriminate. }
+  destruct (Nat.ltb_spec (plen path1) 3) as [Hl3|Hge].
+  { repeat split; auto; try discriminate; try (intros; exfalso; lia). }
+  repeat split; auto; try discriminate; try (intros; exfalso; lia).
+Qed.
+
+(* ... which is what happens when the forward run is not stopped by an interface within the first
+   maxlength([0+]) - 1 frames *)
+Lemma retis_path1_too_long e0 e1 old0 s1 rest path1 st1 streams2 calls :
+  retis_path1 dumpf e0 e1 true old0 (s1 :: rest) = Ok (path1, st1, streams2, calls) ->
+  (forall f, In f (firstn (e_maxlen e1 - 1) s1) -> crossedb (e_i0 e1) (e_i2 e1) f = false) ->
+  (e_maxlen e1 <= plen path1)%nat.
+Proof.
+  unfold retis_path1. destruct (last_frame old0) as [f0l|]; [|discriminate].
+  destruct (engine_call _ _ (s1 :: rest) _ false _ _) as [[[ptmp str1] c]|] eqn:E; [|discriminate].
+  destruct (last2_frame old0) as [f0m2|]; [|discriminate].
+  intros H Hno.
+  apply (engine_call_uses _ _ _ _ _ _ _ _ _ _ _ (e_maxlen e1 - 1)%nat) in E; [|lia|].
+  2:{ intros s' tl' [= <- <-]. exact Hno. }
+  destruct E as (s' & k & [= <- <-] & Ep & Ek & [Hk1 Ekl] & ->).
+  set (pp := dump dumpf DSecondLast f0m2) in *.
+  pose proof (append_spec (empty_path (e_maxlen e1) 0) pp) as (A1 & A2 & A3).
+  set (Q := fst (append (empty_path (e_maxlen e1) 0) pp)) in *.
+  cbn [empty_path plen pts length maxlen torigin app] in A1, A2, A3.
+  destruct (Nat.ltb_spec 0 (e_maxlen e1)) as [_|Hz]; [|lia].
+  pose proof (iadd_pts 0 Q ptmp) as HI.
+  assert (HQl : plen Q = 1%nat) by (unfold plen; rewrite A1; reflexivity).
+  rewrite A1, A2, HQl, Ep in HI. cbn [map app] in HI.
+  rewrite firstn_all2 in HI by (rewrite map_length, firstn_length; lia).
+  inversion H; subst path1; clear H.
+  rewrite plen_map_erase, HI. cbn [length]. rewrite map_length, firstn_length. lia.
+Qed.
+
+(* any outcome of the move that is not the early lambda_-1 exit, in terms of the two steps *)
+Lemma retis_out_inv e0 e1 old0 old1 streams draws acc sp0 sp1 st calls nd :
+  retis_swap_zero dumpf e0 e1 old0 old1 streams draws = Out acc sp0 sp1 st calls nd ->
+  lm1_early e0 (sp_path old0) = false ->
+  exists ep st0 st1 streams1 streams2 calls0 calls1,
+    end_point (sp_path old0) (e_i0 e0) (e_i2 e0) = Some ep /\
+    retis_path0 dumpf e0 e1 (is_R ep) (sp_path old1) streams = Ok (sp_path sp0, st0, streams1, calls0) /\
+    retis_path1 dumpf e0 e1 (is_R ep) (sp_path old0) streams1 = Ok (sp_path sp1, st1, streams2, calls1) /\
+    calls = calls0 ++ calls1 /\
+    (acc = true -> st0 = ACC /\ st1 = ACC) /\
+    (st0 <> ACC -> acc = false /\ st = st0 /\ sp_status sp0 = st0) /\
+    (st1 <> ACC -> acc = false /\ sp_status sp1 = st1 /\ (st0 = ACC -> st = st1 /\ sp_status sp0 = st1)).
+Proof.
+  unfold retis_swap_zero. intros H Hearly. rewrite Hearly in H.
+  destruct (end_point (sp_path old0) (e_i0 e0) (e_i2 e0)) as [ep|]; [|discriminate].
+  destruct (retis_path0 dumpf e0 e1 (is_R ep) (sp_path old1) streams) as [[[[path0 st0] str1] calls0]|] eqn:E0; [|discriminate].
+  destruct (retis_path1 dumpf e0 e1 (is_R ep) (sp_path old0) str1) as [[[[path1 st1] str2] calls1]|] eqn:E1; [|discriminate].
+  exists ep, st0, st1, str1, str2, calls0, calls1.
+  destruct (is_acc st0) eqn:A0; destruct (is_acc st1) eqn:A1; cbn [andb] in H.
+  - apply is_acc_true in A0, A1. subst st0 st1.
+    destruct (is_wf (e_move e0) || is_wf (e_move e1)).
+    + destruct draws as [|u draws']; [discriminate|].
+      destruct (high_acc_swap path1 (sp_path old1) e0 e1 u) as [[a s]|]; [|discriminate].
+      destruct (final_weight path0 e0); [|discriminate]. destruct (final_weight path1 e1); [|discriminate].
+      inversion H; subst; clear H. cbn [sp_path].
+      repeat split; try reflexivity; try assumption; intros; congruence.
+    + destruct (final_weight path0 e0); [|discriminate]. destruct (final_weight path1 e1); [|discriminate].
+      inversion H; subst; clear H. cbn [sp_path].
+      repeat split; try reflexivity; try assumption; intros; congruence.
+  - apply is_acc_true in A0. subst st0. pose proof (is_acc_false _ A1) as N1.
+    destruct (final_weight path0 e0); [|discriminate]. destruct (final_weight path1 e1); [|discriminate].
+    inversion H; subst; clear H. cbn [sp_path sp_status negb andb is_acc].
+    repeat split; try reflexivity; try assumption; intros; congruence.
+  - apply is_acc_true in A1. subst st1. pose proof (is_acc_false _ A0) as N0.
+    destruct (final_weight path0 e0); [|discriminate]. destruct (final_weight path1 e1); [|discriminate].
+    inversion H; subst; clear H. cbn [sp_path sp_status negb andb is_acc].
+    repeat split; try reflexivity; try assumption; intros; congruence.
+  - pose proof (is_acc_false _ A0) as N0. pose proof (is_acc_false _ A1) as N1.
+    destruct (final_weight path0 e0); [|discriminate]. destruct (final_weight path1 e1); [|discriminate].
+    inversion H; subst; clear H. cbn [sp_path sp_status negb andb is_acc].
+    repeat split; try reflexivity; try assumption; intros; congruence.
+Qed.
+
+(* A swap that cannot complete a new path below that path's OWN limit is rejected with the
+   corresponding status.  maxlength([0-]) <= maxlength([0+]) as in C11_swap_valid. *)
+Theorem retis_swap_limit_reject e0 e1 old0 old1 s0 s1 rest draws acc sp0 sp1 st calls nd :
+  retis_swap_zero dumpf e0 e1 old0 old1 (s0 :: s1 :: rest) draws = Out acc sp0 sp1 st calls nd ->
+  lm1_early e0 (sp_path old0) = false ->
+  end_point (sp_path old0) (e_i0 e0) (e_i2 e0) = Some SR ->
+  (e_maxlen e0 <= e_maxlen e1)%nat ->
+  ((forall f, In f (firstn (e_maxlen e0 - 1) s0) -> crossedb (e_i0 e0) (e_i2 e0) f = false) ->
+     acc = false /\ st = BTX /\ sp_status sp0 = BTX /\ plen (sp_path sp0) = e_maxlen e0) /\
+  ((forall f, In f (firstn (e_maxlen e1 - 1) s1) -> crossedb (e_i0 e1) (e_i2 e1) f = false) ->
+     acc = false /\ sp_status sp1 = FTX /\ (e_maxlen e1 <= plen (sp_path sp1))%nat /\
+     (plen (sp_path sp0) = e_maxlen e0 /\ st = BTX \/
+      plen (sp_path sp0) <> e_maxlen e0 /\ (st = FTX /\ sp_status sp0 = FTX \/ st = BTS \/ st = ZML))).
+Proof.
+  intros H Hearly Hep Hml.
+  apply retis_out_inv in H; [|exact Hearly].
+  destruct H as (ep & st0 & st1 & str1 & str2 & calls0 & calls1 & Hep' & H0 & H1 & Hcalls & Hacc & Hn0 & Hn1).
+  rewrite Hep in Hep'. injection Hep' as <-. cbn [is_R] in H0, H1.
+  pose proof (retis_path0_status _ _ _ _ _ _ _ _ _ H0) as (Hb & _ & Hcases0).
+  split.
+  - intros Hno. destruct (retis_path0_too_long _ _ _ _ _ _ _ _ _ H0 Hml Hno) as [Hlen _].
+    apply Hb in Hlen as Hst0. subst st0.
+    destruct (Hn0 ltac:(discriminate)) as (Ha & Hs & Hs0). repeat split; assumption.
+  - intros Hno.
+    assert (Hstr : str1 = s1 :: rest).
+    { clear - H0. unfold retis_path0 in H0. destruct (first_frame (sp_path old1)); [|discriminate].
+      destruct (engine_call _ _ (s0 :: s1 :: rest) _ true _ _) as [[[ptmp s'] c]|] eqn:E; [|discriminate].
+      apply engine_call_inv in E. destruct E as (s0' & k & [= <- <-] & _).
+      destruct (second_frame (sp_path old1)); [|discriminate]. inversion H0. reflexivity. }
+    subst str1.
+    pose proof (retis_path1_too_long _ _ _ _ _ _ _ _ _ H1 Hno) as Hlen.
+    pose proof (retis_path1_status _ _ _ _ _ _ _ _ _ H1) as (Hf & _ & _).
+    apply Hf in Hlen as Hst1. subst st1.
+    destruct (Hn1 ltac:(discriminate)) as (Ha & Hs1 & Hs).
+    split; [exact Ha|]. split; [exact Hs1|]. split; [exact Hlen|].
+    destruct (Nat.eq_dec (plen (sp_path sp0)) (e_maxlen e0)) as [He|Hne].
+    + left. split; [exact He|]. apply Hb in He. subst st0. destruct (Hn0 ltac:(discriminate)) as (_ & Hs' & _). exact Hs'.
+    + right. split; [exact Hne|].
+      destruct Hcases0 as [-> | [-> | [-> | ->]]].
+      * exfalso. apply Hne, Hb. reflexivity.
+      * right; left. destruct (Hn0 ltac:(discriminate)) as (_ & Hs' & _). exact Hs'.
+      * right; right. destruct (Hn0 ltac:(discriminate)) as (_ & Hs' & _). exact Hs'.
+      * left. destruct (Hs eq_refl) as [Hs' Hs0']. split; assumption.
+Qed.
+
+End Limits.
+
+(* an accepted QuanTIS swap respects both limits when maxlength([0-]) <= maxlength([0+]) (the move
+   reads the [0-] limit for both paths) *)
+Theorem quantis_own_limits vpot_of expf e0 e1 b0 b1 old0 old1 streams draws p0 p1 st calls nd :
+  quantis_swap_zero vpot_of expf e0 e1 b0 b1 old0 old1 streams draws = Out true p0 p1 st calls nd ->
+  first_frame_honest streams calls ->
+  (e_maxlen e0 <= e_maxlen e1)%nat ->
+  (3 <= plen (sp_path p0) < e_maxlen e0)%nat /\ (3 <= plen (sp_path p1) < e_maxlen e1)%nat.
+Proof.
+  intros H Hh Hml. apply quantis_junction in H; [|exact Hh].
+  destruct H as (f10 & f0m2 & g0 & H0 & r0 & g1 & H1 & r1 & srest & back & forw & _ & _ & _ & _ & _ & _ & _ & Hl0 & Hl1 & _).
+  lia.
+Qed.
+
 (* ------------------------------------------------------------------ a concrete instance (for the Examples) *)
 (* states = (time on one fixed trajectory, direction of time); one step moves along the
    trajectory, velocity reversal flips the direction; the order parameter is a table lookup *)
@@ -1989,3 +2226,119 @@ Definition e1 : ens := mkEns 2 2 5 true false Msh 10 None false.
 Definition old0 : spath := mkSP (mkP (map fr [-3; -2; -1; 0]) 10 0) ACC 1.
 Definition old1 : spath := mkSP (mkP (map fr [10; 12; 14; 16]) 10 0) ACC 1.
 End Clock2.
+
+
+(* ------------------------------------------------------------------ concrete instances with two different length limits *)
+Module Limits.
+Definition dumpf (lab : dlabel) (t : Z) : Z := match lab with DSecond => 100000 + t | DSecondLast => 200000 + t end.
+Definition fr (tag o : Z) : frame := mkF o tag false 0.
+Definition with_maxlen (e : ens) (m : nat) : ens :=
+  mkEns (e_i0 e) (e_i1 e) (e_i2 e) (e_scL e) (e_scR e) (e_move e) m (e_cap e) (e_accept_all e).
+(* maxlength([0-]) = 6 < maxlength([0+]) = 12 *)
+Definition e0 : ens := mkEns (-100) 2 2 false true Msh 6 None false.
+Definition e1 : ens := mkEns 2 2 5 true false Msh 12 None false.
+Definition old0 : spath := mkSP (mkP [fr 100 3; fr 101 1; fr 102 0; fr 103 4] 6 0) ACC 1.
+Definition old1 : spath := mkSP (mkP [fr 200 1; fr 201 3; fr 202 5; fr 203 6] 12 0) ACC 1.
+(* backward run from old[0+][0]: 1 0 2 7 (stops at its 4th frame); forward run from old[0-][-1]: 4 5 3 4 5 3 1 (7th) *)
+Definition streams : list (list frame) :=
+  [ [mkF 1 1000 true 0; mkF 0 1001 true 0; mkF 2 1002 true 0; mkF 7 1003 true 0; mkF 1 1004 true 0];
+    [mkF 4 2000 false 0; mkF 5 2001 false 0; mkF 3 2002 false 0; mkF 4 2003 false 0; mkF 5 2004 false 0;
+     mkF 3 2005 false 0; mkF 1 2006 false 0; mkF 4 2007 false 0] ].
+(* maxlength([0-]) = 12 > maxlength([0+]) = 5; backward run 1 0 2 1 0 7 (stops at its 6th frame), forward run 4 1 *)
+Definition e0b : ens := with_maxlen e0 12.
+Definition e1b : ens := with_maxlen e1 5.
+Definition streams_b : list (list frame) :=
+  [ [mkF 1 1000 true 0; mkF 0 1001 true 0; mkF 2 1002 true 0; mkF 1 1003 true 0; mkF 0 1004 true 0; mkF 7 1005 true 0];
+    [mkF 4 2000 false 0; mkF 1 2001 false 0] ].
+(* QuanTIS *)
+Definition vpot (t : Z) : option Q := Some 0%Q.
+Definition qstreams : list (list frame) :=
+  [ [mkF 1 1000 false 0; mkF 3 1001 false 0]; [mkF 0 2000 false 0; mkF 3 2001 false 0];
+    [mkF 1 3000 true 0; mkF 0 3001 true 0; mkF 4 3002 true 0]; [mkF 3 4000 false 0; mkF 4 4001 false 0; mkF 1 4002 false 0] ].
+Definition qstreams_long : list (list frame) :=
+  [ [mkF 1 1000 false 0; mkF 3 1001 false 0]; [mkF 0 2000 false 0; mkF 3 2001 false 0];
+    [mkF 1 3000 true 0; mkF 4 3001 true 0]; [mkF 3 4000 false 0; mkF 4 4001 false 0; mkF 4 4002 false 0; mkF 1 4003 false 0] ].
+
+Lemma old0_valid : minus_valid e0 (sp_path old0).
+Proof.
+  eexists _, [_; _], _. split; [reflexivity|]. split; [discriminate|]. split; [reflexivity|].
+  split; [intros _; reflexivity|]. split; [intros f [<-|[<-|[]]]; reflexivity|]. vm_compute. discriminate.
+Qed.
+Lemma old1_valid : plus_valid e1 (sp_path old1).
+Proof.
+  eexists _, [_; _], _. split; [reflexivity|]. split; [discriminate|]. split; [reflexivity|].
+  intros f [<-|[<-|[]]]; reflexivity.
+Qed.
+End Limits.
+
+Lemma swap_valid_limit_order_refuted :
+  exists dumpf e0 e1 old0 old1 streams sp0 sp1 calls,
+    (e_maxlen e1 < e_maxlen e0)%nat /\ e_i0 e0 <= e_i1 e0 <= e_i2 e0 /\
+    minus_valid e0 (sp_path old0) /\ plus_valid e1 (sp_path old1) /\
+    retis_swap_zero dumpf e0 e1 old0 old1 streams [] = Out true sp0 sp1 ACC calls 0 /\
+    plen (sp_path sp0) = e_maxlen e1 /\
+    exists a rest, orders (sp_path sp0) = a :: rest /\ e_i0 e0 <= a <= e_i2 e0.
+Proof.
+  exists Limits.dumpf, Limits.e0b, Limits.e1b, Limits.old0, Limits.old1, Limits.streams_b.
+  eexists _, _, _.
+  split; [vm_compute; lia|]. split; [vm_compute; split; discriminate|].
+  split; [exact Limits.old0_valid|]. split; [exact Limits.old1_valid|].
+  split; [vm_compute; reflexivity|]. split; [reflexivity|].
+  exists 1, [2; 0; 1; 3]. split; [reflexivity|]. vm_compute. split; discriminate.
+Qed.
+
+Lemma forward_segment_minus_limit_refuted :
+  exists dumpf e0 e1 old0 old1 streams sp0 sp1 calls,
+    (e_maxlen e0 < e_maxlen e1)%nat /\ e_i0 e0 <= e_i1 e0 <= e_i2 e0 /\
+    minus_valid e0 (sp_path old0) /\ plus_valid e1 (sp_path old1) /\
+    retis_swap_zero_fwd_minus_limit dumpf e0 e1 old0 old1 streams [] = Out true sp0 sp1 ACC calls 0 /\
+    (3 <= plen (sp_path sp1) < e_maxlen e1)%nat /\
+    (exists pre b, orders (sp_path sp1) = pre ++ [b] /\ e_i0 e1 <= b <= e_i2 e1) /\
+    ~ (exists a mid b, orders (sp_path sp1) = a :: mid ++ [b] /\ (b < e_i0 e1 \/ e_i2 e1 < b)) /\
+    exists sp0' sp1' calls',
+      retis_swap_zero dumpf e0 e1 old0 old1 streams [] = Out true sp0' sp1' ACC calls' 0 /\
+      orders (sp_path sp1') = [0; 4; 5; 3; 4; 5; 3; 1].
+Proof.
+  exists Limits.dumpf, Limits.e0, Limits.e1, Limits.old0, Limits.old1, Limits.streams.
+  eexists _, _, _.
+  split; [vm_compute; lia|]. split; [vm_compute; split; discriminate|].
+  split; [exact Limits.old0_valid|]. split; [exact Limits.old1_valid|].
+  split; [vm_compute; reflexivity|].
+  split; [vm_compute; lia|].
+  split; [exists [0; 4; 5; 3; 4], 5; split; [reflexivity|vm_compute; split; discriminate]|].
+  split.
+  - intros (a & mid & b & E & Hb).
+    change (orders _) with ([0; 4; 5; 3; 4] ++ [5]) in E.
+    change (a :: mid ++ [b]) with ((a :: mid) ++ [b]) in E.
+    apply app_inj_tail in E as [_ <-]. vm_compute in Hb. destruct Hb as [Hb|Hb]; discriminate.
+  - eexists _, _, _. split; [vm_compute; reflexivity|]. reflexivity.
+Qed.
+
+Lemma quantis_limit_order_refuted :
+  (exists vpot_of expf e0 e1 b0 b1 old0 old1 streams draws p0 p1 calls,
+     (e_maxlen e1 < e_maxlen e0)%nat /\
+     quantis_swap_zero vpot_of expf e0 e1 b0 b1 old0 old1 streams draws = Out true p0 p1 ACC calls 1 /\
+     first_frame_honest streams calls /\
+     (e_maxlen e1 <= plen (sp_path p1))%nat) /\
+  (exists vpot_of expf e0 e1 b0 b1 old0 old1 streams draws p0 p1 calls,
+     (e_maxlen e0 < e_maxlen e1)%nat /\
+     quantis_swap_zero vpot_of expf e0 e1 b0 b1 old0 old1 streams draws = Out false p0 p1 FTX calls 1 /\
+     sp_status p0 = ACC /\ sp_status p1 = FTX /\
+     (3 <= plen (sp_path p1) < e_maxlen e1)%nat /\
+     exists pre b, orders (sp_path p1) = pre ++ [b] /\ b < e_i0 e1).
+Proof.
+  split.
+  - exists Limits.vpot, (fun _ => 1%Q), (Limits.with_maxlen Limits.e0 8), (Limits.with_maxlen Limits.e1 4), 1%Q, 1%Q,
+           Limits.old0, Limits.old1, Limits.qstreams, [(1 # 2)%Q].
+    eexists _, _, _.
+    split; [vm_compute; lia|]. split; [vm_compute; reflexivity|].
+    split; [|vm_compute; lia].
+    intros [|[|[|[|k]]]] c s g Hc Hs Hg; cbn in Hc, Hs; try (destruct k; discriminate);
+      injection Hc as <-; injection Hs as <-; injection Hg as <-; reflexivity.
+  - exists Limits.vpot, (fun _ => 1%Q), (Limits.with_maxlen Limits.e0 5), (Limits.with_maxlen Limits.e1 8), 1%Q, 1%Q,
+           Limits.old0, Limits.old1, Limits.qstreams_long, [(1 # 2)%Q].
+    eexists _, _, _.
+    split; [vm_compute; lia|]. split; [vm_compute; reflexivity|].
+    split; [reflexivity|]. split; [reflexivity|]. split; [vm_compute; lia|].
+    exists [0; 3; 4; 4], 1. split; [reflexivity|]. reflexivity.
+Qed.
